@@ -160,6 +160,90 @@ def height_rule(chk, prog):
             break     # no inequality branch in the block: one arm covers it
 
 
+def fixpoint_rule(chk, prog):
+    """FIXPOINT: at the state the latitude iteration of ecef2geodetic converges to (every loop-carried variable a fixed point of the
+    loop body, whatever the initial guess was), the latitude satisfies the exact equation tan(lat) = (z + e^2 N(lat) sin(lat))/p and the
+    post-loop statements return the true height.  A quantity computed once before the loop from the initial guess (stale N) fails both."""
+    f = prog.func(FR + "::ecef2geodetic")
+    chk.touch(f)
+    body = f.body()
+    li = max((i for i, s_ in enumerate(body) if isinstance(s_, ast.While)), default=None)
+    if li is None:
+        chk.error("FIXPOINT: ecef2geodetic has no latitude iteration loop (anchor changed)")
+        return
+    loop, prefix, tail = body[li], body[:li], body[li + 1:]
+    # the loop variable: the name compared in the loop test that the body assigns from an arctan2
+    carried = [t.id for s_ in loop.body if isinstance(s_, ast.Assign) for t in s_.targets if isinstance(t, ast.Name)
+               and any(isinstance(c_, ast.Call) and ast.unparse(c_.func).endswith("arctan2") for c_ in ast.walk(s_.value))]
+    if len(carried) != 1:
+        chk.error("FIXPOINT: cannot identify the iterated latitude in the loop of ecef2geodetic (%s)" % carried)
+        return
+    latn = carried[0]
+    phi, h, N, E, lam = P.sym("fphi"), P.sym("fh"), P.sym("fN"), P.sym("fE"), P.sym("flam")
+    c, s_phi = P.cos(phi), P.sin(phi)
+    for pos in (c, N, N + h, 1 - E, 1 - E * s_phi * s_phi):
+        P.declare_positive(pos)
+    Rr = P.sqrt(1 - E * s_phi * s_phi)
+    a = N * Rr                               # so that a / sqrt(1 - e2 sin^2 phi) == N exactly
+    b = a * P.sqrt(1 - E)                    # so that (a^2 - b^2)/a^2 == E exactly
+    p = (N + h) * c
+    z = (N * (1 - E) + h) * s_phi
+    kw_ = dict(module=FR, function="ecef2geodetic", line=loop.lineno)
+
+    def converged_state():
+        it = Interp(prog, oracle=lambda cnd, it_: False if cnd.op in ("<", ">", "<=", ">=") else None)
+        env = Env(f.module, f)
+        env.vars.update({"x": p * P.cos(lam), "y": p * P.sin(lam), "z": z, "a": a, "b": b})
+        # the initial guess is arbitrary for this obligation: keep it opaque (one symbol per arctan2 of the prefix)
+        guess = []
+        it.intercepts["np.arctan2"] = lambda it_, args_, kw__: (guess.append(1) or P.sym("fguess%d" % len(guess)))
+        r = it.exec_block(prefix, env)
+        del it.intercepts["np.arctan2"]
+        if r is not None and r[0] is _RET:
+            raise AssertionError("prefix returns")
+        out = None
+        for _ in range(3):
+            env.vars[latn] = phi
+            it.exec_block(loop.body, env)
+            out = env.vars[latn]
+        return it, env, out
+
+    def lat_law():
+        it, env, out = converged_state()
+        at = tan_args(out)
+        if at is None:
+            return (None, "the updated latitude is not an arctan2(., .) of closed forms: %s" % str(out)[:80])
+        Y, X = at
+        return eq(Y * c, X * s_phi, "tan(lat) at the fixed point")
+    chk.ob("FIXPOINT", FR + "::ecef2geodetic::latitude", "a state every loop-carried variable of which is a fixed point of the loop body has the exact geodetic latitude",
+           lat_law, construct="latitude fixed point", **kw_)
+
+    def h_law():
+        it, env, out = converged_state()
+        env.vars[latn] = phi
+        r = it.exec_block(tail, env)
+        if r is None or r[0] is not _RET:
+            return (None, "post-loop block does not return")
+        return eq(to_obj(r[1])[2], h, "height at the converged state")
+    chk.ob("FIXPOINT", FR + "::ecef2geodetic::height", "the post-loop statements, run on the converged state of the loop, return the true height", h_law,
+           construct="height at the fixed point", **kw_)
+
+
+def tan_args(r):
+    """(y, x) if r is c * arctan2(y, x) with c == 1"""
+    if not (len(r.den) == 1 and r.den.get(P.ONE_M) == 1):
+        return None
+    if len(r.num) != 1:
+        return None
+    (m, co), = r.num.items()
+    if len(m) != 1 or m[0][1] != 1 or co != 1:
+        return None
+    at = P.atom(m[0][0])
+    if at.kind != "fn" or at.name != "arctan2":
+        return None
+    return at.args
+
+
 def rd_rule(chk, prog):
     mod = prog.module(FR)
     n = 0
@@ -221,6 +305,7 @@ def canaries(chk, prog):
 def run(chk, prog, tier):
     run_identities(chk, prog)
     height_rule(chk, prog)
+    fixpoint_rule(chk, prog)
     rd_rule(chk, prog)
     pure_rule(chk, prog)
     chk.require_count("ENU.roundtrip", 2)
